@@ -146,6 +146,11 @@ def run(script, ctx):
         if k in ("set_ptsw", "set_pts", "set_weights"):
             newP = shapes.gen_points(rng, n, dim)
             newW = shapes.gen_weights(rng, n, unit_chance=0.05)
+            if rng.chance(0.12):
+                # weights a hair away from one (a value that went through single precision, 1 + rounding noise): still weights
+                for j_ in rng.sample(range(n), min(n, 2)):
+                    newW[j_] = 1.0 + rng.pick([1, -1, 3]) * 2.0 ** -25
+                ctx.probe("weight_within_1e-7_of_one")
             rej = op.get("reject")
             tup = op.get("seq") == "tuple"
             if tup:
@@ -354,9 +359,11 @@ def run(script, ctx):
             res = g.convert.nurbs_to_bspline(obj)
             for prm in ([0.0] * nd, [1.0] * nd, [0.3125, 0.6875, 0.4375][:nd], [0.5625, 0.1875, 0.8125][:nd]):
                 e = model.eval(prm)
+                # (nurbs_to_bspline documents a tolerance: weights within 10e-8 of one count as one - the result then differs by that much)
+                tolc = 5e-7 if (all(abs(w_ - 1.0) <= 10e-8 for w_ in W) and any(w_ != 1.0 for w_ in W)) else 1e-9
                 for nm, o in (("result", res), ("input afterwards", obj)):
                     got = list(o.evaluate_single(prm[0] if nd == 1 else prm))
-                    ok, why = close(got, e, 1e-9)
+                    ok, why = close(got, e, tolc if nm == "result" else 1e-9)
                     if not ok:
                         ctx.fail("conversion_changed_shape", "nurbs_to_bspline of a rational %s with weights in [%r, %r]: the %s evaluates to %r at %r, the input evaluated to %r" % (
                             kind, min(W), max(W), nm, got, prm, e), op="nurbs_to_bspline", **sig)
